@@ -60,14 +60,29 @@ class Parsed:
                 yield "", it
 
 
+def depth_keys(texts):
+    out, d = [], 0
+    for t in texts:
+        if t == "{":
+            out.append("{@%d" % d)
+            d += 1
+        elif t == "}":
+            d -= 1
+            out.append("}@%d" % d)
+        else:
+            out.append(t)
+    return out
+
+
 def transplant(master, mit, regs, kept, ext, eit):
     """emit ext's text for the function with master's annotation regions inserted"""
-    K = [master.toks[k].text for k in kept]
-    ekept = list(range(eit.lo, eit.hi))
     # extracted side has no annotations but may have attributes/pub: erase the same way
     eregs = rtok.exec_regions(ext.toks, eit)
     ekept = rtok.kept_tokens(ext.toks, eit, eregs)
-    A = [ext.toks[k].text for k in ekept]
+    # braces are compared together with their nesting depth, so that an inserted or deleted block
+    # cannot shift the alignment of the braces around it
+    K = depth_keys([master.toks[k].text for k in kept])
+    A = depth_keys([ext.toks[k].text for k in ekept])
     sm = difflib.SequenceMatcher(None, K, A, autojunk=False)
     k2a = {}
     for blk in sm.get_matching_blocks():
